@@ -64,6 +64,10 @@ CHECKS = {
    technique="exhaustive input enumeration x output configurations: all token sequences <= 4/5, statement families x layouts with <= 1/2 deviations, expression chains, literal family; every segment of every emitted map decoded by an independent Source Map v3 decoder and checked against an independent tokenizer of source and generated code",
    text="Every accepted program of the bounded universes is compiled with a source map in compact mode and in the pretty option sets of the tier; the mappings string is decoded independently and EVERY segment is checked: a token starts exactly at its generated position and one of the same kind and lexeme exactly at its source position, segments are ordered, identifier segments carry the identifier's name and every identifier of the output is covered. A writer path that bypasses the position tracker (deferred white space, inserted separators, comments, escapes) shifts all later segments of the line or file; each such path needs a particular construct and layout, and all constructs x layouts up to the bound are enumerated.",
    note="trusted: decoder (xmc/ref/rmap.go) and R-tok; columns accepted in UTF-16 units or bytes; string literals compared by kind"),
+ "C14": dict(cat="model_checking", sec="4 C14",
+   technique="explicit-state exploration of operation histories on shared builders/compilers/trees against solo replays on fresh instances + stateless schedule exploration (hand-written cooperative scheduler, iterative context bounding, all interleavings up to a preemption bound) of parse/compile jobs on the overlay-instrumented library; complementary free-running -race pass (sampling, declared as such)",
+   text="Every call history up to the bound on two builder stacks and two compilers is executed on the real objects and every observation is compared with a replay of the same configuration on fresh instances used alone (isolation, many parsers per builder, Compile does not modify the tree, source map does not change code, debug string = compact code). For concurrency the real library is rebuilt with scheduling points at every package-level variable access, heap store and function entry (go build -overlay, /repo untouched) and 2-3 jobs sharing nothing / a builder / a tree / a compiler are run under a cooperative scheduler; ALL schedules up to the stated preemption bounds are executed and each job's result is compared with its solo result; writes to package-level variables by concurrent jobs are reported from the access log. State leaking through a package-level table, a hoisted buffer or an aliased slice shows only under particular call orders or interleavings; these are enumerated, not sampled.",
+   note="trusted: the instrumenter (xmc/instr) and scheduler (xmc/cmd/sched); sequential consistency; yield granularity as stated; the -race pass is sampling and only adds reports"),
 }
 NA_REASON = {}
 def main():
@@ -88,7 +92,7 @@ def main():
         "setup_cmd": "./setup.sh",
         "hooks": {
             "guard": "verif",
-            "enable": "go build -tags verif (check.sh); no hook is required by any oracle — all oracles use the public API; the tag is reserved for optional read-only accessors",
+            "enable": "go build -tags verif (check.sh); no hook file is committed to /repo: all oracles use the public API, and the scheduling points of C14 are inserted by a go/ast rewriter into a go build -overlay (xmc/instr), regenerated from /repo's working tree on every run",
             "baseline_off_cmd": "cd /repo && GOFLAGS=-mod=mod GOPROXY=off GOSUMDB=off GOTOOLCHAIN=local go test -json -vet=off -count=1 -timeout 25m ./...",
             "source_commits": [],
             "add_only": True,
